@@ -36,7 +36,7 @@ inductive Instr where
   | not
   | spawn
   | send
-  | self
+  | self (startedWith : Option Nat)
   | processRef (pid fn : Nat)
   deriving Repr, Inhabited
 
@@ -63,7 +63,7 @@ def exec (env : Env) (s : State) (pid : Nat) : Instr → State × Out
   | .not => handleNot s pid
   | .spawn => handleSpawn s pid
   | .send => handleSend s pid
-  | .self => handleSelf s pid
+  | .self sw => handleSelf s pid sw
   | .processRef p f => handleProcessRef s pid p f
 
 /-- one iteration of the instruction loop of `step`: run the handler; on `Err` store the error and
